@@ -137,7 +137,10 @@ def _native_engine(pid, tier, seed, known):
 
 
 from .nat import engine as _nat_mod
-for _pid in ("C01", "C02", "C03", "C04", "C05", "C06", "C07", "C08", "C09", "C11", "C12", "C14", "C18", "C19"):
+# bounded-only claims (level "exploration"): no deductive obligation exists for these; Engine N families only
+PLAN["C17"] = {"kernels": [], "kinds": [], "extra": [], "trusted": [], "level": "exploration"}
+PLAN["C10"] = {"kernels": [], "kinds": [], "extra": [], "trusted": [], "level": "exploration"}
+for _pid in ("C01", "C02", "C03", "C04", "C05", "C06", "C07", "C08", "C09", "C10", "C11", "C12", "C14", "C17", "C18", "C19"):
     PLAN[_pid].setdefault("extra", [])
     PLAN[_pid]["extra"] = list(PLAN[_pid]["extra"]) + [_native_engine]
     PLAN[_pid]["trusted"] = list(PLAN[_pid].get("trusted", [])) + _nat_mod.TRUSTED
